@@ -273,7 +273,7 @@ func main() {
 		return
 	}
 	run := report.New("C09", "fault_enumeration")
-	run.Rule("faults applied to the real store while the checker holds it: F1 database handle closed under the repository; F2 byte flips / truncation of every table file and the MANIFEST at seeded offsets, then restart; F3 a listed record's value overwritten (garbage / empty / truncated) through a second handle while the checker is down; F4 Cleanup overlapping in-flight lookups (both backends); F5 EIO injected by strace into every pread64 from the N-th on in a child doing lookups on a prepared disk image; F6 a swap that fails half way (target made non-renamable between 'old moved aside' and 'new moved in'), then lookups of a configured CRL; for listed and unlisted certificates at Repository.IsRevoked and CRLRevocationChecker.IsRevoked; oracle: under an active fault (Revoked=false, err=nil) for a listed certificate is a violation; for an unlisted one only when the fault provably hit the read; non-trivial = fault case in which the fault surfaced as an error or verifiably missed the read; distinct = fault case descriptor")
+	run.Rule("faults applied to the real store while the checker holds it: F1 database handle closed under the repository; F2 byte flips / truncation of every table file and the MANIFEST at seeded offsets and single-bit flips inside the stored key of a listed record, then restart, every entry of the list probed; F3 a listed record's value overwritten (garbage / empty / truncated) through a second handle while the checker is down; F4 Cleanup overlapping in-flight lookups (both backends); F5 EIO injected by strace into every pread64 from the N-th on in a child doing lookups on a prepared disk image; F6 a swap that fails half way (target made non-renamable between 'old moved aside' and 'new moved in'), then lookups of a configured CRL; for listed and unlisted certificates at Repository.IsRevoked and CRLRevocationChecker.IsRevoked; oracle: under an active fault (Revoked=false, err=nil) for a listed certificate is a violation; for an unlisted one only when the fault provably hit the read; non-trivial = fault case in which the fault surfaced as an error or verifiably missed the read; distinct = fault case descriptor")
 	run.Assume("strict CDP mode for on-disk corruption cases, so that a store that cannot even be opened is denied by the strict gate rather than silently unknown", "F5: strace injects EIO into pread64 (goleveldb table reads) of a child process from the N-th call on, N per thread")
 	scratch, _ := report.Scratch("C09")
 	sut.QuietStderr(filepath.Join(scratch, "stderr.log"))
@@ -393,8 +393,31 @@ func main() {
 			}
 			f := files[k%len(files)]
 			b, _ := os.ReadFile(f)
-			kind := []string{"flip", "flip", "flip", "truncate", "zero-run"}[k%5]
+			kind := []string{"flip", "flip-key", "flip", "truncate", "zero-run", "flip-key"}[k%6]
 			var desc string
+			if kind == "flip-key" {
+				// one bit inside the stored key of a listed record (found literally in a table file)
+				issuer, _ := asn1parser.ParseRDNSequence(s.w.Int.Cert.RawSubject)
+				target := l.listed[k%len(l.listed)]
+				key := hashing.Sum64(issuer.String() + "_" + target.String())
+				found := false
+				for _, tf := range files {
+					tb, _ := os.ReadFile(tf)
+					if i := strings.Index(string(tb), string(key)); i >= 0 && strings.HasSuffix(tf, ".ldb") {
+						f, b = tf, tb
+						b[i+7] ^= 1
+						desc = fmt.Sprintf("F2 bit flip inside the stored key of listed serial %s (offset %d of %s)", target, i+7, filepath.Base(tf))
+						found = true
+						break
+					}
+				}
+				if !found {
+					s.run.Count("F2_key_not_found_literally", 1)
+					kind = "flip"
+				} else {
+					s.run.Count("F2_key_flips", 1)
+				}
+			}
 			switch kind {
 			case "flip":
 				off := s.rng.Intn(len(b))
@@ -420,7 +443,20 @@ func main() {
 			}
 			l.chk = nl
 			defer l.chk.Stop()
-			s.judge("F2-table-corruption."+kind, "disk", l, false, desc)
+			if s.judge("F2-table-corruption."+kind, "disk", l, false, desc) {
+				// every entry of the list, once, at repository level (a damaged block may hold any of them)
+				repo := l.chk.C.VerifRepository()
+				locs := &core.CRLLocations{CRLDistributionPoints: l.cdp}
+				for _, e := range l.entries {
+					c := s.w.Leaf(e.Serial, l.cdp, nil)
+					st, err := repo.IsRevoked(c[0], locs)
+					s.run.Eval(1)
+					if err == nil && (st == nil || !st.Revoked) {
+						s.run.Violation("F2-table-corruption."+kind+".disk.listed-answered-not-revoked", fmt.Sprintf("%s: Repository.IsRevoked answered (Revoked=false, err=nil) for listed serial %s", desc, e.Serial), &report.Replay{Case: desc})
+						break
+					}
+				}
+			}
 		}})
 	}
 	// F5: read errors injected by strace into every pread64 from the N-th on
@@ -569,6 +605,9 @@ func main() {
 	if !isShard {
 		run.RunShards(10, scratch)
 		run.Set("fault_cases_planned", len(jobs))
+		if run.Counter("F2_key_flips") < 1 {
+			run.Inconclusive("F2: no stored key of a listed record was found literally in a table file")
+		}
 		run.Finish(10)
 		return
 	}
